@@ -13,7 +13,7 @@ A harness is a class with
 import os, sys, time, json, importlib, traceback, random
 from concurrent.futures import ProcessPoolExecutor, wait, FIRST_COMPLETED
 import z3
-from .interp import Machine, Infeasible, Unsupported, Inconclusive, PanicEx, ExitEx
+from .interp import zstr, Machine, Infeasible, Unsupported, Inconclusive, PanicEx, ExitEx
 from . import xmlmodel as X
 
 class Harness:
@@ -43,7 +43,7 @@ def assignment_from_model(model, consts):
         v = model.eval(c, model_completion=True)
         if z3.is_bool(v): out[str(c)] = z3.is_true(v)
         elif z3.is_int_value(v) or z3.is_bv_value(v): out[str(c)] = v.as_long()
-        elif z3.is_string_value(v): out[str(c)] = v.as_string()
+        elif z3.is_string_value(v): out[str(c)] = zstr(v)
         else: out[str(c)] = str(v)
     return out
 
@@ -84,7 +84,19 @@ def path_function(h):
         res = {'verdict': 'ok', 'witness': {k: True for k, v in h.witnesses(m, out).items() if v}, 'nconds': len(conds)}
         bad = None
         concrete_false = [l for l, f in conds if f is False]
-        if concrete_false:
+        if getattr(h, 'multi', False):
+            # report every violated clause separately (so that a known finding in one clause does not mask another clause)
+            found = []
+            for l, f in conds:
+                if f is False:
+                    m.check(); found.append((l, m.model()))
+                elif m.check(z3.Not(f)): found.append((l, m.model()))
+            if found:
+                res['verdict'] = 'violation'; res['label'] = found[0][0]
+                res['assignment'] = assignment_from_model(found[0][1], h.consts())
+                res['more'] = [{'label': l, 'assignment': assignment_from_model(md, h.consts())} for l, md in found[1:6]]
+                return res
+        elif concrete_false:
             m.check(); bad = (concrete_false[0], m.model())
         else:
             sym = [f for l, f in conds]
@@ -122,7 +134,7 @@ Harness.sample_this_path = _default_sample
 def _task(prefix, budget, deadline):
     m = _W['m']; drv = _W['drv']
     q0 = dict(m.stats)
-    res = {'ok': 0, 'violation': [], 'inconclusive': [], 'panic_ok': 0, 'witness': {}, 'samples': [], 'nconds': 0, 'paths': 0, 'maxdepth': 0}
+    res = {'ok': 0, 'violation': [], 'inconclusive': [], 'panic_ok': 0, 'witness': {}, 'samples': [], 'nconds': 0, 'paths': 0, 'maxdepth': 0, 'vlabels': {}}
     for tr, pc, st, v in m.explore(drv, prefix, max_paths=budget):
         res['paths'] += 1; res['maxdepth'] = max(res['maxdepth'], len(tr))
         if st == 'ok':
@@ -131,8 +143,12 @@ def _task(prefix, budget, deadline):
                 for k in v.get('witness', {}): res['witness'][k] = res['witness'].get(k, 0) + 1
                 if 'sample' in v and len(res['samples']) < 3: res['samples'].append(v['sample'])
             else:
-                if len(res['violation']) < 5: res['violation'].append({'label': v['label'], 'assignment': v['assignment'], 'trace_len': len(tr)})
-                else: res['violation_more'] = res.get('violation_more', 0) + 1
+                for vv in [v] + v.get('more', []):
+                    key = vv['label']
+                    if key not in res['vlabels'] or res['vlabels'][key] < 2:
+                        res['vlabels'][key] = res['vlabels'].get(key, 0) + 1
+                        res['violation'].append({'label': vv['label'], 'assignment': vv['assignment'], 'trace_len': len(tr)})
+                    else: res['violation_more'] = res.get('violation_more', 0) + 1
         elif st == 'inconclusive':
             if len(res['inconclusive']) < 5: res['inconclusive'].append(v)
             res['inconclusive_n'] = res.get('inconclusive_n', 0) + 1
@@ -152,7 +168,7 @@ def run_harness(ast_path, mod, cls, kw, seed=0, workers=None, time_cap=120, path
     t0 = time.time(); deadline = t0 + time_cap
     agg = {'harness': cls, 'kw': {k: v for k, v in kw.items() if isinstance(v, (int, str, bool, float, list))}, 'paths': 0, 'ok': 0, 'violations': [], 'violation_count': 0,
            'inconclusive': [], 'inconclusive_n': 0, 'witness': {}, 'samples': [], 'nconds': 0, 'maxdepth': 0,
-           'stats': {}, 'called': set(), 'complete': True, 'char_splits': 0}
+           'stats': {}, 'called': set(), 'complete': True, 'char_splits': 0, 'vlabel_n': {}}
     queue = [[]]
     with ProcessPoolExecutor(max_workers=workers, initializer=_init, initargs=(ast_path, mod, cls, kw, seed)) as ex:
         pending = set()
@@ -169,7 +185,8 @@ def run_harness(ast_path, mod, cls, kw, seed=0, workers=None, time_cap=120, path
                 agg['paths'] += r['paths']; agg['ok'] += r['ok']; agg['nconds'] += r['nconds']; agg['maxdepth'] = max(agg['maxdepth'], r['maxdepth'])
                 agg['violation_count'] += len(r['violation']) + r.get('violation_more', 0)
                 for v in r['violation']:
-                    if len(agg['violations']) < 20: agg['violations'].append(v)
+                    n = agg['vlabel_n'].get(v['label'], 0)
+                    if n < 3 and len(agg['violations']) < 60: agg['violations'].append(v); agg['vlabel_n'][v['label']] = n + 1
                 agg['inconclusive_n'] += r.get('inconclusive_n', 0)
                 for v in r['inconclusive']:
                     if len(agg['inconclusive']) < 10 and v not in agg['inconclusive']: agg['inconclusive'].append(v)
